@@ -56,6 +56,7 @@ fn gens(tier: Tier) -> Vec<Gen> {
         Gen::new("triples_min_forms_sample", tier.pick(2, 2_000, 200_000)),
         Gen::new("random_long_streams", tier.pick(2, 300, 30_000)),
         Gen::new("regression_seeds", 1),
+        Gen::exhaustive("every_type_below_0x60", 0x60),
     ]
 }
 
@@ -776,6 +777,26 @@ pub fn fuzz_seeds(n: usize, seed: u64) -> Vec<Vec<u8>> {
 }
 
 fn run_case(gen: &str, index: u64, seed: u64, tier: Tier, rep: &mut Report) {
+    if gen == "every_type_below_0x60" {
+        // every frame type value of the one- and two-byte range next to the defined ones (0x41,
+        // the length-less WebTransport signal, is outside C02's alphabet), alone and between two
+        // DATA frames, with payloads of 0, 1 and 5 bytes
+        let ty = index;
+        if ty == 0x41 {
+            return;
+        }
+        let mut rng = Rng::new(seed);
+        for payload in [&b""[..], b"\x00", b"\x04\x01\x02\x03\x07"] {
+            let f = rf::frame(ty, payload);
+            check_string(&f, 12, 4, &mut rng, rep);
+            let mut s = rf::frame(rf::T_DATA, b"ab");
+            s.extend(&f);
+            s.extend(rf::frame(rf::T_DATA, b"c"));
+            check_string(&s, 9, 6, &mut rng, rep);
+            rep.count("small_type_strings");
+        }
+        return;
+    }
     let mut rng = Rng::new(seed);
     let all_upto = match tier {
         Tier::Thorough => 12,
